@@ -2,16 +2,17 @@
 # Determinism proof: every scenario of every check is executed for N run indices in two separate processes at two
 # different worker counts; per-run history hashes must agree (in-process diff = 0, equal batch hashes across processes).
 N="${1:-300}"
+B="${BIN_DIR:-/verif/sim/target/release}"   # directory holding the engine binaries
 cd /verif/sim || exit 2
 out=/verif/reports/determinism.txt
 mkdir -p /verif/reports
 : > "$out"
 bad=0
 for bin in gmxsim marketsim; do
-  [ -x target/release/$bin ] || continue
-  for p in $(VERIF_DIR=/tmp ./target/release/$bin list); do
-    a=$(VERIF_DIR=/tmp ./target/release/$bin determinism --property $p --runs $N --threads 16 2>/dev/null | grep DET)
-    b=$(VERIF_DIR=/tmp ./target/release/$bin determinism --property $p --runs $N --threads 5 2>/dev/null | grep DET)
+  [ -x $B/$bin ] || continue
+  for p in $(VERIF_DIR=/tmp $B/$bin list); do
+    a=$(VERIF_DIR=/tmp $B/$bin determinism --property $p --runs $N --threads 16 2>/dev/null | grep DET)
+    b=$(VERIF_DIR=/tmp $B/$bin determinism --property $p --runs $N --threads 5 2>/dev/null | grep DET)
     if [ "$a" == "$b" ] && ! echo "$a" | grep -qv "in_process_diffs=0"; then echo "SAME $a" | tr '\n' ' ' >> "$out"; echo >> "$out"; else echo "DIFF $p" >> "$out"; echo "$a" >> "$out"; echo "$b" >> "$out"; bad=1; fi
   done
 done
